@@ -314,6 +314,11 @@ def run(ctx):
                 raise common.LeanGateError("leanchecker rejected the part modules:\n" + (so + se)[-2000:])
     except common.LeanGateError as ex:
         gate_err = str(ex)
+        # lean_gate builds the whole library; other modules are edited concurrently.  Only a failure
+        # of the C04 modules themselves says something about C04.
+        rc, out = common.lake_build([MODULE])
+        if rc == 0 and "forbidden tokens" not in gate_err and "leanchecker" not in gate_err:
+            raise RuntimeError("the Lean library does not build outside the C04 modules (machinery failure, not a C04 result):\n" + gate_err[-2000:])
         broken.append({"stage": "lean gate", "detail": gate_err[-3000:]})
     t_gate = time.time() - t0 - t_translate
     # the model's answer for every tuple (needs only the table and the model, not the theorems)
@@ -325,7 +330,11 @@ def run(ctx):
     D = load_translator()
     m = D.load()
     js = json.load(open(LATTICE_JSON))
+    if sorted(js["functions"]) != sorted(m.functions):
+        raise RuntimeError("/repo changed during the check (set of dispatched functions); re-run")
     for name, fn in m.functions.items():
+        if json.loads(json.dumps(fn["sigs"])) != js["functions"][name]["sigs"]:
+            raise RuntimeError(f"/repo changed during the check: signatures of {name} differ between the translator run and now; re-run")
         if [[list(a), c] for a, c in fn["tuples"]] != js["functions"][name]["tuples"] or \
                 set(lean.get(name, {})) != set(fn["tuples"]):
             raise RuntimeError(f"lattice of {name}: translator run, in-process model and Lean driver differ")
@@ -388,6 +397,10 @@ def run(ctx):
         # gate / correspondence broken and no real failing call explains it (a finding that is only
         # recorded in known_findings.json must also be declared in CLAUSES of dump_rules.py)
         common.violation(ctx, {"broken": [b["stage"] for b in broken], "detail": broken, "lean_model_failures": len(lean_fail)}, no_input=True)
+    # rules that are never selected anywhere on the lattice (not a C04 defect; reported)
+    selected = {n: {o[1] for (o, _, _) in d.values() if o[0] == "U"} for n, d in lean.items()}
+    never = [f"{n}: signature {i} ({fn['sigs'][i]['repr']}) @ {fn['sigs'][i]['impl']}" + (" [conditional]" if fn["sigs"][i]["cond"] is not None else "")
+             for n, fn in sorted(m.functions.items()) for i in range(len(fn["sigs"])) if i not in selected.get(n, set())]
     # (e) evidence
     lat = {name: len(fn["tuples"]) for name, fn in sorted(m.functions.items())}
     forms_n = {fo["name"]: len(fo["items"]) for fo in m.forms}
@@ -420,6 +433,7 @@ def run(ctx):
         "mismatches": len(mismatches),
         "uncovered": len(uncovered),
         "samples": samples[:12],
+        "never_selected_on_lattice": never,
         "timing_s": {"translator": round(t_translate, 1), "lean_gate": round(t_gate, 1), "correspondence": round(t_corr, 1)},
         "translator": tsum,
         "trusted_base_extra": [
